@@ -590,15 +590,114 @@ fn active_tag(logger: &log4rs::Logger) -> (String, Vec<usize>) {
     }
 }
 
+/// How the configuration path handed to log4rs reaches the file. Edits always go to the file the
+/// path RESOLVES to; the model's FileView is that file (metadata follows links).
+///   f  plain file                       <dir>/log4rs.yaml
+///   l  the path is a symlink            <dir>/log4rs.yaml -> real_<n>.yaml
+///   d  a directory component is a link  <dir>/cfg -> data_<n>/ ; path = <dir>/cfg/log4rs.yaml
+struct Layout {
+    kind: char,
+    dir: PathBuf,
+    gen: usize,
+    atomic: bool, // replace by rename (a concurrently polling thread never sees a half-written file)
+}
+
+impl Layout {
+    fn new(dir: &Path, kind: char, atomic: bool) -> Option<Layout> {
+        if !"fld".contains(kind) {
+            return None;
+        }
+        let l = Layout { kind, dir: dir.to_path_buf(), gen: 0, atomic };
+        match kind {
+            'l' => std::os::unix::fs::symlink("real_0.yaml", l.path()).ok()?,
+            'd' => {
+                std::fs::create_dir(dir.join("data_0")).ok()?;
+                std::os::unix::fs::symlink("data_0", dir.join("cfg")).ok()?;
+            }
+            _ => {}
+        }
+        Some(l)
+    }
+    /// the path given to init_file / VerifReloader::new
+    fn path(&self) -> PathBuf {
+        match self.kind {
+            'd' => self.dir.join("cfg").join("log4rs.yaml"),
+            _ => self.dir.join("log4rs.yaml"),
+        }
+    }
+    /// the file the path currently resolves to
+    fn target(&self) -> PathBuf {
+        self.target_of(self.gen)
+    }
+    fn target_of(&self, gen: usize) -> PathBuf {
+        match self.kind {
+            'l' => self.dir.join(format!("real_{}.yaml", gen)),
+            'd' => self.dir.join(format!("data_{}", gen)).join("log4rs.yaml"),
+            _ => self.dir.join("log4rs.yaml"),
+        }
+    }
+    fn put_at(&self, p: &Path, bytes: &[u8], m: u64) {
+        if self.atomic {
+            put_file_atomic(p, bytes, m)
+        } else {
+            put_file(p, bytes, m)
+        }
+    }
+    fn put(&self, bytes: &[u8], m: u64) {
+        self.put_at(&self.target(), bytes, m)
+    }
+    fn clear(&self) {
+        clear_path(&self.target())
+    }
+    fn put_dir(&self, m: u64) {
+        put_dir(&self.target(), m)
+    }
+    /// the path is made to denote ANOTHER file (new content, new mtime): for the link kinds the
+    /// link is re-pointed atomically (ConfigMap / `current -> releases/N` style), the final link
+    /// of kind `l` resp. the directory link of kind `d` being replaced by rename
+    fn repoint(&mut self, bytes: &[u8], m: u64) {
+        match self.kind {
+            'l' => {
+                let new = self.target_of(self.gen + 1);
+                self.put_at(&new, bytes, m);
+                let tmp = self.dir.join("link.tmp");
+                let _ = std::fs::remove_file(&tmp);
+                std::os::unix::fs::symlink(format!("real_{}.yaml", self.gen + 1), &tmp).unwrap();
+                std::fs::rename(&tmp, self.path()).unwrap();
+                clear_path(&self.target());
+                self.gen += 1;
+            }
+            'd' => {
+                let newdir = self.dir.join(format!("data_{}", self.gen + 1));
+                std::fs::create_dir(&newdir).unwrap();
+                self.put_at(&newdir.join("log4rs.yaml"), bytes, m);
+                let tmp = self.dir.join("link.tmp");
+                let _ = std::fs::remove_file(&tmp);
+                std::os::unix::fs::symlink(format!("data_{}", self.gen + 1), &tmp).unwrap();
+                std::fs::rename(&tmp, self.dir.join("cfg")).unwrap();
+                let _ = std::fs::remove_dir_all(self.dir.join(format!("data_{}", self.gen)));
+                self.gen += 1;
+            }
+            _ => self.put(bytes, m),
+        }
+    }
+}
+
 fn exec_reload(docs: &str, init: &str, steps: &str) -> String {
     let docs: Vec<Doc> = match dec_list(';', docs).iter().map(|d| dec_doc(d)).collect() {
         Some(d) => d,
         None => return "bad-case".to_owned(),
     };
     let f: Vec<&str> = init.split(':').collect();
-    if f.len() != 3 {
+    if f.len() != 3 && f.len() != 4 {
         return "bad-case".to_owned();
     }
+    // optional 4th component: path kind (default: plain file)
+    let pk = match f.get(3) {
+        None => 'f',
+        Some(k) if k.len() == 1 && "fld".contains(*k) => k.chars().next().unwrap(),
+        _ => return "bad-case".to_owned(),
+    };
     let (d0, m0, forget) = match (f[0].parse::<usize>(), f[1].parse::<u64>(), f[2]) {
         (Ok(d), Ok(m), "0") if d < docs.len() => (d, m, false),
         (Ok(d), Ok(m), "1") if d < docs.len() => (d, m, true),
@@ -606,6 +705,7 @@ fn exec_reload(docs: &str, init: &str, steps: &str) -> String {
     };
     enum Step {
         Write(usize, u64),
+        Repoint(usize, u64),
         Missing,
         Dir(u64),
         NotUtf8(u64),
@@ -616,6 +716,10 @@ fn exec_reload(docs: &str, init: &str, steps: &str) -> String {
         let st = match f.as_slice() {
             ["w", d, m] => match (d.parse::<usize>(), m.parse::<u64>()) {
                 (Ok(d), Ok(m)) if d < docs.len() => Step::Write(d, m),
+                _ => return "bad-case".to_owned(),
+            },
+            ["p", d, m] => match (d.parse::<usize>(), m.parse::<u64>()) {
+                (Ok(d), Ok(m)) if d < docs.len() => Step::Repoint(d, m),
                 _ => return "bad-case".to_owned(),
             },
             ["x"] => Step::Missing,
@@ -634,8 +738,12 @@ fn exec_reload(docs: &str, init: &str, steps: &str) -> String {
     let dir = scratch_dir();
     let dir2 = dir.clone();
     let r = guarded(move || {
-        let path = dir2.join("log4rs.yaml");
-        put_file(&path, render_doc(&docs[d0]).as_bytes(), m0);
+        let mut lay = match Layout::new(&dir2, pk, false) {
+            Some(l) => l,
+            None => return "bad-case".to_owned(),
+        };
+        let path = lay.path();
+        lay.put(render_doc(&docs[d0]).as_bytes(), m0);
         let mut des = log4rs::config::Deserializers::default();
         des.insert("tagged", RTaggedDeserializer(Arc::new(AtomicUsize::new(0))));
         // the logger starts with an empty configuration; `init_file` would create it from the
@@ -660,10 +768,11 @@ fn exec_reload(docs: &str, init: &str, steps: &str) -> String {
         let mut out = vec![format!("init:{}:{}:{}", tag0, rate.as_secs(), enc_bool(alive))];
         for st in &sts {
             match st {
-                Step::Write(d, m) => put_file(&path, render_doc(&docs[*d]).as_bytes(), *m),
-                Step::Missing => clear_path(&path),
-                Step::Dir(m) => put_dir(&path, *m),
-                Step::NotUtf8(m) => put_file(&path, &[0x61, 0xff, 0xfe, 0x0a], *m),
+                Step::Write(d, m) => lay.put(render_doc(&docs[*d]).as_bytes(), *m),
+                Step::Repoint(d, m) => lay.repoint(render_doc(&docs[*d]).as_bytes(), *m),
+                Step::Missing => lay.clear(),
+                Step::Dir(m) => lay.put_dir(*m),
+                Step::NotUtf8(m) => lay.put(&[0x61, 0xff, 0xfe, 0x0a], *m),
             }
             // `run_once` does not say whether it called set_config; the logger does: a new
             // configuration has new appender objects (new serial numbers)
@@ -889,6 +998,16 @@ fn gen_reload_deterministic(emit: &mut dyn FnMut(String)) {
     for h in hist {
         emit(format!("reload\t{}\t0:10:0\t{}", docs, h));
         emit(format!("reload\t{}\t0:10:1\t{}", docs, h)); // mtime unavailable
+        // the path is a symlink to the file / has a symlinked directory component: edits go to
+        // the file the path resolves to
+        emit(format!("reload\t{}\t0:10:0:l\t{}", docs, h));
+        emit(format!("reload\t{}\t0:10:0:d\t{}", docs, h));
+    }
+    // re-pointing the link (ConfigMap / current -> releases/N): the path denotes another file
+    for pk in ["f", "l", "d"] {
+        for h in ["p:1:11,w:4:12,p:0:13", "p:1:10,p:1:11", "w:1:11,p:1:12,w:0:12,w:0:13", "x,p:1:11,w:2:12,p:0:13", "d:11,p:1:12,w:0:13"] {
+            emit(format!("reload\t{}\t0:10:0:{}\t{}", docs, pk, h));
+        }
     }
     emit(format!("reload\t{}\t3:10:0\tw:1:11", docs)); // no refresh_rate at start: the reloader never runs
     emit(format!("reload\t{}\t2:10:0\tw:1:11", docs)); // init on a broken file fails
@@ -962,10 +1081,20 @@ fn gen_reload_random(rng: &mut Rng, thorough: bool, emit: &mut dyn FnMut(String)
             }
         }
     }
+    let pk = *rng.pick(&["f", "f", "l", "l", "d"]);
+    if rng.chance(1, 3) {
+        // some edits re-point the path instead of rewriting the file in place
+        for st in steps.iter_mut() {
+            if st.starts_with("w:") && rng.chance(1, 3) {
+                *st = format!("p:{}", &st[2..]);
+            }
+        }
+    }
     emit(format!(
-        "reload\t{}\t0:10:{}\t{}",
+        "reload\t{}\t0:10:{}:{}\t{}",
         docs.iter().map(enc_doc).collect::<Vec<_>>().join(";"),
         enc_bool(forget),
+        pk,
         steps.join(",")
     ));
 }
@@ -993,6 +1122,23 @@ fn gen_thread_deterministic(emit: &mut dyn FnMut(String)) {
         "3:10>w:1:11",                        // no refresh_rate at start: no thread
         "2:10>w:1:11",                        // init on a broken file fails
         "0:10>w:1:9,w:2:8,x,w:2:8,w:7:7",     // mtime going backwards; bad, deleted, bad again, good
+        // path kinds (init part d:m:<path kind>:<stderr kind>): l = the path is a symlink to the file
+        "0:10:l:n>w:1:11,w:7:12",             // edits of the link's target are seen
+        "0:10:l:n>p:1:11,w:7:12,x,w:0:13",    // link re-pointed, new target edited, deleted, recreated
+        "0:10:l:n>w:2:11,w:0:12,w:3:13,w:1:14", // syntax error + restore + rate removal through the link
+        "0:10:l:n>w:0:11,w:1:11,w:1:12",      // touch, same-mtime edit, seen when the target's mtime moves
+        // d = a directory component of the path is a symlink (ConfigMap layout)
+        "0:10:d:n>w:1:11,w:0:11,w:0:12",
+        "0:10:d:n>p:1:11,w:7:12,p:0:13,x,p:1:14",
+        // stderr kinds: p = a pipe whose reading end is closed (every error report fails with EPIPE):
+        // a reported poll failure must not end the loop - the later valid change is applied
+        "0:10:f:p>w:2:11,w:1:12",             // syntax error, then a valid file
+        "0:10:f:p>x,x,w:1:11",                // deleted, then a new file
+        "0:10:f:p>u:11,w:1:12",               // unreadable, then a valid file
+        "0:10:f:p>w:6:11,w:8:12,w:7:13",      // schema error, bad refresh rate, then a valid file
+        "0:10:f:p>w:9:11,w:0:12",             // lossy config (reported, applied), then a change
+        "0:10:l:p>w:2:11,p:1:12,x,w:7:13",    // both: link + closed stderr
+        "0:10:f:p>w:1:11,w:7:12",             // control: nothing to report
     ];
     emit(format!("thread\t{}\t{}", THREAD_DOCS, hist.join("|")));
 }
@@ -1053,7 +1199,16 @@ fn gen_thread_random(rng: &mut Rng, emit: &mut dyn FnMut(String)) {
                 }
             }
         }
-        hs.push(format!("{}:10>{}", start, steps.join(",")));
+        let pk = *rng.pick(&["f", "f", "l", "l", "d"]);
+        let ek = if rng.chance(1, 3) { "p" } else { "n" };
+        if rng.chance(1, 3) {
+            for st in steps.iter_mut() {
+                if st.starts_with("w:") && rng.chance(1, 3) {
+                    *st = format!("p:{}", &st[2..]);
+                }
+            }
+        }
+        hs.push(format!("{}:10:{}:{}>{}", start, pk, ek, steps.join(",")));
     }
     emit(format!("thread\t{}\t{}", THREAD_DOCS, hs.join("|")));
 }
@@ -1143,13 +1298,30 @@ fn exec_thread(docs: &str, hists: &str) -> String {
             continue;
         }
         let dir = scratch_dir();
-        let ch = std::process::Command::new(&exe)
-            .args(["child", "c15", "thread", docs, h])
-            .arg(&dir)
-            .stdin(std::process::Stdio::null())
-            .stdout(std::process::Stdio::piped())
-            .stderr(std::process::Stdio::null())
-            .spawn();
+        // stderr kind: 4th component of the history's init part; `p` = a pipe whose reading end is
+        // closed before the child starts (every write to stderr fails with EPIPE), else /dev/null
+        let ek = h.split('>').next().and_then(|i| i.split(':').nth(3)).unwrap_or("n");
+        let stderr = if ek == "p" {
+            match std::io::pipe() {
+                Ok((r, w)) => {
+                    drop(r);
+                    std::process::Stdio::from(w)
+                }
+                Err(_) => std::process::Stdio::null(),
+            }
+        } else {
+            std::process::Stdio::null()
+        };
+        let ch = {
+            let mut cmd = std::process::Command::new(&exe);
+            cmd.args(["child", "c15", "thread", docs, h])
+                .arg(&dir)
+                .stdin(std::process::Stdio::null())
+                .stdout(std::process::Stdio::piped())
+                .stderr(stderr);
+            cmd.spawn()
+            // `cmd` (and with it the parent's copy of the pipe's writing end) is dropped here
+        };
         jobs.push(Job::Run(ch, dir, slot));
     }
     let deadline = Instant::now() + Duration::from_secs(90);
@@ -1247,7 +1419,7 @@ fn child_thread(docs: &str, hist: &str, dir: &str) -> Result<String, String> {
     let docs: Vec<Doc> = dec_list('/', docs).iter().map(|d| dec_doc(d)).collect::<Option<_>>().ok_or("docs")?;
     let (init, steps) = hist.split_once('>').ok_or("history")?;
     let f: Vec<&str> = init.split(':').collect();
-    if f.len() != 2 {
+    if f.len() != 2 && f.len() != 4 {
         return Err("init".to_owned());
     }
     let d0: usize = f[0].parse().map_err(|_| "init")?;
@@ -1255,8 +1427,11 @@ fn child_thread(docs: &str, hist: &str, dir: &str) -> Result<String, String> {
     if d0 >= docs.len() {
         return Err("init".to_owned());
     }
-    let path = Path::new(dir).join("log4rs.yaml");
-    put_file_atomic(&path, render_doc_unit(&docs[d0], "ms").as_bytes(), m0);
+    // optional: path kind, stderr kind (the latter is the parent's business)
+    let pk = if f.len() == 4 { f[2].chars().next().unwrap_or('?') } else { 'f' };
+    let mut lay = Layout::new(Path::new(dir), pk, true).ok_or("path kind")?;
+    let path = lay.path();
+    lay.put(render_doc_unit(&docs[d0], "ms").as_bytes(), m0);
     let mut des = log4rs::config::Deserializers::default();
     des.insert("tagged", RTaggedDeserializer(Arc::new(AtomicUsize::new(0))));
     if log4rs::init_file(&path, des).is_err() {
@@ -1276,12 +1451,20 @@ fn child_thread(docs: &str, hist: &str, dir: &str) -> Result<String, String> {
                 if d >= docs.len() {
                     return Err("step".to_owned());
                 }
-                put_file_atomic(&path, render_doc_unit(&docs[d], "ms").as_bytes(), m);
+                lay.put(render_doc_unit(&docs[d], "ms").as_bytes(), m);
             }
-            ["x"] => clear_path(&path),
+            ["p", d, m] => {
+                let d: usize = d.parse().map_err(|_| "step")?;
+                let m: u64 = m.parse().map_err(|_| "step")?;
+                if d >= docs.len() {
+                    return Err("step".to_owned());
+                }
+                lay.repoint(render_doc_unit(&docs[d], "ms").as_bytes(), m);
+            }
+            ["x"] => lay.clear(),
             ["u", m] => {
                 let m: u64 = m.parse().map_err(|_| "step")?;
-                put_file_atomic(&path, &[0x61, 0xff, 0xfe, 0x0a], m);
+                lay.put(&[0x61, 0xff, 0xfe, 0x0a], m);
             }
             ["z"] => wait = THREAD_LONG_WAIT_MS,
             _ => return Err("step".to_owned()),
